@@ -1934,8 +1934,14 @@ func TestVerifC17(t *testing.T) {
 						case ".toml":
 							return LoadFromTomlBytes([]byte(content), v)
 						case ".yaml", ".yml":
+							if style&1 != 0 {
+								return LoadConfigFromYamlBytes([]byte(content), v) // deprecated wrapper
+							}
 							return LoadFromYamlBytes([]byte(content), v)
 						case ".json":
+							if style&1 != 0 {
+								return LoadConfigFromJsonBytes([]byte(content), v) // deprecated wrapper
+							}
 							return LoadFromJsonBytes([]byte(content), v)
 						}
 						return fmt.Errorf("no loader")
